@@ -5,12 +5,15 @@ reach.  It mirrors the Go *mechanism*: values are heap cells addressed by `Nat` 
 return slot of the top frame is polled after each statement, frames of failed calls stay on the
 stack, scopes are per module.  Everything runs on fuel; Go panics are the outcome `.panic`.
 
-Not modelled (outcome `.unmodelled`, counted by the correspondence run): 取随机数, the text methods that
-wrap Go's `strings` package case mapping/trim/replacer, library functions, Go slices' backing arrays.
+Not modelled (outcome `.unmodelled`, counted by the correspondence run): 取随机数, library functions, Go slices'
+backing arrays; of the text methods (Model/TextOps.lean, Model/TextMethods.lean: on the bytes of the Go string) the case
+mapping of letters that are neither English nor without case, and 转换数值 on the spellings `strconv.ParseFloat` accepts
+beyond plain decimal numerals (inf / nan, hexadecimal, underscores) or that may be out of range.
 -/
 import ZnVerif.Model.Ast
 import ZnVerif.Model.Num
 import ZnVerif.Model.IdMatch
+import ZnVerif.Model.TextMethods
 
 namespace ZnVerif.Model
 
@@ -513,6 +516,18 @@ def compareXEQ : Nat → Addr → Addr → M ν Bool
 
 def runeCount (s : String) : Nat := s.length
 
+/-- the bytes of a Go string holding this text (`.str` cells hold Unicode strings: the lexer, `string([]rune)` and every
+text method produce valid UTF-8) -/
+def textBytes (s : String) : List Nat := TextOps.encode (strCps s)
+
+/-- the text a Go string with these bytes is (`[]rune(s)`; the methods below keep texts valid, so nothing is lost) -/
+def bytesText (b : List Nat) : String := String.ofList ((TextOps.runes b).map Char.ofNat)
+
+/-- `value.ThrowException(message)`: an exception signal carrying a fresh 异常 value -/
+abbrev throwException {α} (msg : String) : M ν α := do
+  let e ← alloc (.exc msg)
+  throwE (.sigExc e)
+
 /-- `array.go` insertArrayValue -/
 def insertArrayValue (target : List Addr) (idx : Int) (x : Addr) : Res (List Addr) :=
   if idx ≥ target.length then .ok (target ++ [x])
@@ -548,9 +563,9 @@ def getProperty (n : Nat) (a : Addr) (name : String) : M ν Addr := do
     | _ => rtErr 45
   | .str s =>
     match name with
-    | "长度" | "字数" => newNum (NumOps.ofInt (runeCount s))
+    | "长度" | "字数" => newNum (NumOps.ofInt (TextOps.length (textBytes s)))
     | "文本" => newStr s
-    | "字符组" => do let cs ← s.toList.mapM (fun c => newStr (String.singleton c)); alloc (.arr cs)
+    | "字符组" => do let cs ← (TextOps.chars (textBytes s)).mapM (fun c => newStr (bytesText c)); alloc (.arr cs)
     | _ => rtErr 45
   | .bool b =>
     match name with
@@ -759,15 +774,64 @@ def builtinMethod (n : Nat) (a : Addr) (name : String) (vals : List Addr) : M ν
       | [v] =>
         match ← getCell v with
         | .str t =>
-          let sl := s.toList
-          let tl := t.toList
-          let b := if name == "匹配开头" then tl.isPrefixOf sl
-                   else if name == "匹配结尾" then tl.isSuffixOf sl
-                   else (List.range (sl.length + 1)).any fun i => tl.isPrefixOf (sl.drop i)
+          let b := if name == "匹配开头" then TextOps.hasPrefix (textBytes s) (textBytes t)
+                   else if name == "匹配结尾" then TextOps.hasSuffix (textBytes s) (textBytes t)
+                   else TextOps.containsGo (textBytes t) (textBytes s)
           newBool b
         | _ => goPanic
       | _ => goPanic
-    | "替换" | "分隔" | "取样" | "去除空格" | "转小写-英文" | "转大写-英文" | "格式化" | "转换数值" => notModelled
+    | "替换" => do
+      validateExact vals ["string", "string"]
+      match vals with
+      | [p, q] =>
+        match ← getCell p, ← getCell q with
+        | .str old, .str new => newStr (bytesText (TextOps.replaceAll (textBytes s) (textBytes old) (textBytes new)))
+        | _, _ => goPanic
+      | _ => goPanic
+    | "分隔" => do
+      validateExact vals ["string"]
+      match vals with
+      | [v] =>
+        match ← getCell v with
+        | .str sep => do
+          let cs ← (TextOps.split (textBytes s) (textBytes sep)).mapM (fun p => newStr (bytesText p))
+          alloc (.arr cs)
+        | _ => goPanic
+      | _ => goPanic
+    | "取样" => do
+      validateExact vals ["number", "number"]
+      match vals with
+      | [p, q] =>
+        match ← getCell p, ← getCell q with
+        | .num pv, .num qv =>
+          match TextOps.slice (textBytes s) (NumOps.toInt pv) (NumOps.toInt qv) with
+          | .ok r => newStr (bytesText r)
+          | .error .startIndex => throwException "文本的起始索引需从1开始！"
+          | .error .endIndex => throwException "文本的结束索引不能超过其长度！"
+          | .error .panic => goPanic
+        | _, _ => goPanic
+      | _ => goPanic
+    | "去除空格" => newStr (bytesText (TextOps.trimSpace (textBytes s)))
+    | "转小写-英文" =>
+      match TextOps.toLower (textBytes s) with
+      | some r => newStr (bytesText r)
+      | none => notModelled
+    | "转大写-英文" =>
+      match TextOps.toUpper (textBytes s) with
+      | some r => newStr (bytesText r)
+      | none => notModelled
+    | "格式化" => do
+      validateAll vals "string"
+      let ss ← vals.mapM fun v => do match ← getCell v with | .str t => pure (textBytes t) | _ => goPanic
+      newStr (bytesText (TextOps.format (textBytes s) ss))
+    | "转换数值" => do
+      -- `s.value = v`: the receiver holds the rewritten text from here on, whatever ParseFloat says
+      let b := TextOps.atoiRewrite (textBytes s)
+      setCell a (.str (bytesText b))
+      match TextOps.atofClass b with
+      | .number => newNum (NumOps.parse b)
+      | .syntaxErr => throwException "转成数值失败，文本可能并不符合合适的数值格式"
+      | .special => notModelled
     | _ => rtErr 46
   | _ => rtErr 46
 
